@@ -5,6 +5,7 @@ proofs in Lemmas/Doc.lean).  Every `theorem` here is a counted obligation.
 -/
 import EzdxfVerif.Lemmas.Doc
 import EzdxfVerif.Lemmas.DocOwner
+import EzdxfVerif.Lemmas.DocEffects
 
 namespace EzdxfVerif.Props.C05
 open EzdxfVerif.Doc
@@ -51,6 +52,18 @@ theorem spec_add (s : State) (k h seed : Nat) (sp : List Nat) (hsp : spaceOf s k
     the dead object stays in the entity space until the next purge -/
 theorem spec_destroy (s : State) (e k : Nat) :
     content (step s (.destroy e)).1 k = (content s k).filter (· ≠ e) := Doc.spec_destroy s e k
+
+/-- `layout.unlink_entity(e)`: the entity leaves this layout's content, nothing else changes -/
+theorem spec_unlink (s s' : State) (k e : Nat) (h : unlinkCore s k e = some s') (ha : isAlive s e = true) :
+    content s' k = (content s k).erase e ∧ ∀ k', k' ≠ k → content s' k' = content s k' :=
+  Doc.spec_unlink s s' k e h ha
+
+/-- `layout.delete_entity(e)`: accepted, the entity is dead and gone from the layout's content -/
+theorem spec_delete (s : State) (k e : Nat) (s1 : State) (h : unlinkCore s k e = some s1)
+    (ha : isAlive s e = true) :
+    (step s (.del k e)).2 = .ok ∧ isAlive (step s (.del k e)).1 e = false ∧
+    content (step s (.del k e)).1 k = ((content s k).erase e).filter (· ≠ e) :=
+  Doc.spec_delete s k e s1 h ha
 
 /-- purging never changes what a layout shows -/
 theorem spec_purge (s : State) (k : Nat) : content (step s .purge).1 k = content s k :=
